@@ -59,6 +59,15 @@ def run(ctx):
         if c["dispatched"] or c["response_bytes"] >= 48:
             ctx.violation(f"wire-timeout:{c['server']}", f"{c['server']} with a read timeout: {c['junk']} junk bytes, a stall longer than the timeout, then a valid frame - the frame was "
                           f"dispatched {c['dispatched']} time(s) and {c['response_bytes']} response bytes came back although the stream's first 48 bytes are not a header", c)
+    # the clients' response readers are stream-reading entry points as well: well-formed frames nobody waits for, hostile in content only
+    st = ctx.work / "stray.json"
+    ctx.vh("mux-stray", "--out", st, timeout=900)
+    for c in json.loads(st.read_text())["cases"]:
+        ctx.coverage["evaluations"] += 1
+        if c["panics"] or c["cls"] != "ok":
+            ctx.violation(f"client-reader:{c['client']}:{'panic' if c['panics'] else c['cls']}",
+                          f"{c['client']} client, a stray {c['flavour']} frame with a {c['query_len']}-byte query ({c['query']}) arrived while a call was in flight: "
+                          f"{c['panics']} panic(s) ({c['panic_msg']}), the call then returned {c['cls']} ({c['msg']})", c)
     ctx.coverage["exhaustive"] = True
     ctx.coverage["explanation"] = "exhaustive over the boundary-class product of MC_RepeWire (LenClasses x LenClasses x Totals x BufLens x magic); random inputs are samples"
     ctx.assume("error KIND is not judged (the property only demands an error); disagreements about the reason are not violations",
